@@ -10,6 +10,7 @@ import (
 	"fmt"
 	"go/token"
 	"go/types"
+	"sort"
 	"strings"
 
 	"golang.org/x/tools/go/ssa"
@@ -120,10 +121,10 @@ func stackKey(st []ssa.Instruction) string {
 func reachU(start ipos, stop func(ssa.Instruction) bool) map[ssa.Instruction]bool {
 	out := map[ssa.Instruction]bool{}
 	seen := map[string]bool{}
-	var walk func(p ipos, stack []ssa.Instruction)
-	walk = func(p ipos, stack []ssa.Instruction) {
+	var walk func(p ipos, stack []ssa.Instruction, known knownResults)
+	walk = func(p ipos, stack []ssa.Instruction, known knownResults) {
 		if p.i == 0 {
-			k := fmt.Sprintf("%p|%s", p.b, stackKey(stack))
+			k := fmt.Sprintf("%p|%s|%s", p.b, stackKey(stack), known.key())
 			if seen[k] {
 				return
 			}
@@ -131,10 +132,10 @@ func reachU(start ipos, stop func(ssa.Instruction) bool) map[ssa.Instruction]boo
 		}
 		for i := p.i; i < len(p.b.Instrs); i++ {
 			in := p.b.Instrs[i]
-			if _, isRet := in.(*ssa.Return); isRet {
+			if ret, isRet := in.(*ssa.Return); isRet {
 				if len(stack) > 0 {
 					top := stack[len(stack)-1]
-					walk(posAfter(top), stack[:len(stack)-1])
+					walk(posAfter(top), stack[:len(stack)-1], known.withReturn(top, ret))
 					return
 				}
 				out[in] = true
@@ -143,11 +144,11 @@ func reachU(start ipos, stop func(ssa.Instruction) bool) map[ssa.Instruction]boo
 				}
 				fn := in.Parent()
 				if isPrivateHelper(fn) {
-					k := fmt.Sprintf("ret %p", fn)
+					k := fmt.Sprintf("ret %p %p", fn, ret)
 					if !seen[k] {
 						seen[k] = true
 						for _, s := range curSites.sites[fn] {
-							walk(posAfter(s), nil)
+							walk(posAfter(s), nil, knownResults{}.withReturn(s, ret))
 						}
 					}
 				}
@@ -158,16 +159,159 @@ func reachU(start ipos, stop func(ssa.Instruction) bool) map[ssa.Instruction]boo
 				return
 			}
 			if h := helperCallee(in); h != nil && len(stack) < unitDepth && !onStack(stack, h) {
-				walk(entryPos(h), append(append([]ssa.Instruction{}, stack...), in))
+				walk(entryPos(h), append(append([]ssa.Instruction{}, stack...), in), known)
 				return
+			}
+			if iff, isIf := in.(*ssa.If); isIf && len(p.b.Succs) == 2 {
+				if val, ok := known.decide(iff.Cond); ok {
+					// the helper that produced the tested value returned a constant on this path
+					if val {
+						walk(ipos{p.b.Succs[0], 0}, stack, known)
+					} else {
+						walk(ipos{p.b.Succs[1], 0}, stack, known)
+					}
+					return
+				}
 			}
 		}
 		for _, s := range p.b.Succs {
-			walk(ipos{s, 0}, stack)
+			walk(ipos{s, 0}, stack, known)
 		}
 	}
-	walk(start, nil)
+	walk(start, nil, knownResults{})
 	return out
+}
+
+// knownResults: what the walk knows about results of the private helpers it has returned from: a result that is
+// the constant nil / a value that cannot be nil / a boolean constant at the return taken. A later test of that
+// result in the caller ("if err != nil") then has one feasible branch.
+type knownResults struct {
+	m map[ssa.Value]int8 // 1 nil, 2 not nil, 3 true, 4 false
+}
+
+func (k knownResults) key() string {
+	if len(k.m) == 0 {
+		return ""
+	}
+	var parts []string
+	for v, c := range k.m {
+		parts = append(parts, fmt.Sprintf("%p=%d", v, c))
+	}
+	sort.Strings(parts)
+	return strings.Join(parts, ",")
+}
+
+func classifyResult(rv ssa.Value) int8 {
+	if rv == nil {
+		return 0
+	}
+	if isNilConst(rv) {
+		return 1
+	}
+	if c, ok := rv.(*ssa.Const); ok && c.Value != nil && isBoolType(c.Type()) {
+		if c.Value.String() == "true" {
+			return 3
+		}
+		return 4
+	}
+	switch x := rv.(type) {
+	case *ssa.MakeInterface, *ssa.Alloc, *ssa.MakeMap, *ssa.MakeChan, *ssa.MakeSlice, *ssa.MakeClosure:
+		return 2
+	case *ssa.UnOp:
+		if _, isG := x.X.(*ssa.Global); isG && x.Op == token.MUL && rv.Type().String() == "error" {
+			return 2 // sentinel errors are not nil
+		}
+	}
+	if neverNilCall(rv) {
+		return 2
+	}
+	return 0
+}
+
+func (k knownResults) withReturn(call ssa.Instruction, ret *ssa.Return) knownResults {
+	cv, ok := call.(*ssa.Call)
+	if !ok {
+		return k
+	}
+	n := knownResults{m: map[ssa.Value]int8{}}
+	for v, c := range k.m {
+		n.m[v] = c
+	}
+	set := func(v ssa.Value, rv ssa.Value) {
+		c := classifyResult(rv)
+		if c == 0 {
+			if pc, had := k.m[rv]; had {
+				c = pc
+			}
+		}
+		if c == 0 && rv != nil {
+			// "if err != nil { return err }": the return is guarded by a test of the returned value
+			for _, g := range guardsOfBlock(ret.Block()) {
+				if gv, eq, isCmp := nilCmpOf(g.Cond); isCmp && gv == rv {
+					if eq == g.Val {
+						c = 1
+					} else {
+						c = 2
+					}
+				}
+			}
+		}
+		if c == 0 {
+			delete(n.m, v)
+		} else {
+			n.m[v] = c
+		}
+	}
+	one := func(i int) ssa.Value {
+		vs := retValAt(ret, i)
+		if len(vs) == 1 {
+			return vs[0]
+		}
+		return nil
+	}
+	if len(ret.Results) == 1 {
+		set(cv, one(0))
+		return n
+	}
+	if refs := cv.Referrers(); refs != nil {
+		for _, rf := range *refs {
+			if ex, ok := rf.(*ssa.Extract); ok && ex.Index < len(ret.Results) {
+				set(ex, one(ex.Index))
+			}
+		}
+	}
+	return n
+}
+
+// decide evaluates a branch condition that tests a known helper result.
+func (k knownResults) decide(cond ssa.Value) (val, ok bool) {
+	if len(k.m) == 0 {
+		return false, false
+	}
+	neg := false
+	for d := 0; d < 4; d++ {
+		if u, isU := cond.(*ssa.UnOp); isU && u.Op == token.NOT {
+			cond, neg = u.X, !neg
+			continue
+		}
+		break
+	}
+	if v, eq, isCmp := nilCmpOf(cond); isCmp {
+		switch k.m[v] {
+		case 1:
+			return eq != neg, true
+		case 2:
+			return !eq != neg, true
+		}
+		return false, false
+	}
+	switch k.m[cond] {
+	case 3:
+		return !neg, true
+	case 4:
+		return neg, true
+	}
+	return false, false
 }
 
 func onStack(stack []ssa.Instruction, h *ssa.Function) bool {
@@ -188,10 +332,46 @@ func mustPassU(start ipos, target, through func(ssa.Instruction) bool) (bool, ss
 			continue
 		}
 		if target(in) && (bad == nil || in.Pos() < bad.Pos()) {
+			if hasFact(in, errorOfNeverFailing) {
+				continue // only reachable if a function that always returns a nil error returned one
+			}
 			bad = in
 		}
 	}
 	return bad == nil, bad
+}
+
+// errorOfNeverFailing: the fact says that the error result of a module function all of whose returns yield a nil
+// error is not nil (an infeasible edge: `if err := c.SetWriteDeadline(t); err != nil { return err }`).
+func errorOfNeverFailing(ft fact) bool {
+	return nilFact(ft, func(v ssa.Value) bool {
+		var call *ssa.Call
+		idx := 0
+		switch x := v.(type) {
+		case *ssa.Call:
+			call = x
+		case *ssa.Extract:
+			call, _ = x.Tuple.(*ssa.Call)
+			idx = x.Index
+		}
+		if call == nil || v.Type().String() != "error" {
+			return false
+		}
+		sc := call.Call.StaticCallee()
+		if sc == nil || !inModule(sc) || len(sc.Blocks) == 0 || idx >= sc.Signature.Results().Len() {
+			return false
+		}
+		vals := returnedValues(sc, idx)
+		if len(vals) == 0 {
+			return false
+		}
+		for _, rv := range vals {
+			if !isNilConst(rv) {
+				return false
+			}
+		}
+		return true
+	}, false)
 }
 
 // mustExec: instruction a is executed on every entry→return path of its function.
@@ -399,6 +579,43 @@ func enumPathsU(f *ssa.Function, limit int) ([]upath, bool) { return enumPathsOp
 func enumIterPathsU(f *ssa.Function, limit int) ([]upath, bool) { return enumPathsOpt(f, limit, true) }
 
 func enumPathsOpt(f *ssa.Function, limit int, cutLoops bool) ([]upath, bool) {
+	return enumPathsCfg(f, limit, cutLoops, false)
+}
+
+// enumPathsFlat enumerates the entry→return paths of f alone: helper calls stay calls.
+func enumPathsFlat(f *ssa.Function, limit int) ([]upath, bool) {
+	return enumPathsCfg(f, limit, false, true)
+}
+
+// neverNilCall: constructors of the standard library whose result is not nil.
+func neverNilCall(v ssa.Value) bool {
+	c, ok := v.(*ssa.Call)
+	if !ok {
+		return false
+	}
+	switch callName(c) {
+	case "fmt.Errorf", "errors.New":
+		return true
+	}
+	return false
+}
+
+// nilCmpOf: cond is "v == nil" (eq true) or "v != nil".
+func nilCmpOf(cond ssa.Value) (v ssa.Value, eq bool, ok bool) {
+	b, isB := cond.(*ssa.BinOp)
+	if !isB || (b.Op != token.EQL && b.Op != token.NEQ) {
+		return nil, false, false
+	}
+	if isNilConst(b.Y) {
+		return b.X, b.Op == token.EQL, true
+	}
+	if isNilConst(b.X) {
+		return b.Y, b.Op == token.EQL, true
+	}
+	return nil, false, false
+}
+
+func enumPathsCfg(f *ssa.Function, limit int, cutLoops, noInline bool) ([]upath, bool) {
 	ok := true
 	var out []upath
 	type frame struct {
@@ -407,6 +624,7 @@ func enumPathsOpt(f *ssa.Function, limit int, cutLoops bool) ([]upath, bool) {
 	}
 	cur := upath{Arg: map[ssa.Value]ssa.Value{}, Ret: map[ssa.Value]ssa.Value{}, RetAll: map[ssa.Value][]ssa.Value{}}
 	var run func(p ipos, on map[*ssa.BasicBlock]bool, stack []frame)
+	visits := map[*ssa.BasicBlock]int{}
 	snapshot := func() upath {
 		c := upath{Instrs: append([]ssa.Instruction(nil), cur.Instrs...), Conds: append([]fact(nil), cur.Conds...),
 			Arg: map[ssa.Value]ssa.Value{}, Ret: map[ssa.Value]ssa.Value{}, RetAll: map[ssa.Value][]ssa.Value{},
@@ -427,7 +645,29 @@ func enumPathsOpt(f *ssa.Function, limit int, cutLoops bool) ([]upath, bool) {
 			return
 		}
 		if p.i == 0 {
-			if on[p.b] {
+			if on[p.b] && visits[p.b] < 40 && constLoopHeader(&cur, p.b) {
+				// a loop whose trip count is a constant (for i := range hdr): unrolled, the induction variable is
+				// evaluated along the path
+				visits[p.b]++
+				defer func() { visits[p.b]-- }()
+				// a new iteration: the blocks of the previous one may be visited again
+				on2 := map[*ssa.BasicBlock]bool{}
+				for k, v := range on {
+					on2[k] = v
+				}
+				first := p.b.Instrs[0]
+				for i := len(cur.Instrs) - 1; i >= 0; i-- {
+					in := cur.Instrs[i]
+					if in.Parent() == p.b.Parent() {
+						delete(on2, in.Block())
+					}
+					if in == first {
+						break
+					}
+				}
+				on2[p.b] = true
+				on = on2
+			} else if on[p.b] {
 				if cutLoops {
 					sn := snapshot()
 					sn.Loop, sn.LoopTo = true, p.b
@@ -439,9 +679,10 @@ func enumPathsOpt(f *ssa.Function, limit int, cutLoops bool) ([]upath, bool) {
 				}
 				ok = false // loop
 				return
+			} else {
+				on[p.b] = true
+				defer func() { on[p.b] = false }()
 			}
-			on[p.b] = true
-			defer func() { on[p.b] = false }()
 		}
 		nI, nC := len(cur.Instrs), len(cur.Conds)
 		defer func() { cur.Instrs, cur.Conds = cur.Instrs[:nI], cur.Conds[:nC] }()
@@ -502,7 +743,7 @@ func enumPathsOpt(f *ssa.Function, limit int, cutLoops bool) ([]upath, bool) {
 			case *ssa.Panic:
 				return
 			case *ssa.Call:
-				if h := helperCallee(x); h != nil && len(stack) < unitDepth {
+				if h := helperCallee(x); h != nil && len(stack) < unitDepth && !noInline {
 					rec := false
 					for _, fr := range stack {
 						if fr.call.Call.StaticCallee() == h {
@@ -574,7 +815,7 @@ func enumPathsOpt(f *ssa.Function, limit int, cutLoops bool) ([]upath, bool) {
 									known, knownVal = true, b.Op == token.EQL
 								}
 							default:
-								if _, isMI := rv.(*ssa.MakeInterface); isMI {
+								if _, isMI := rv.(*ssa.MakeInterface); isMI || neverNilCall(rv) {
 									known, knownVal = true, b.Op == token.NEQ
 								}
 								// a package-level error value (io.EOF, context.DeadlineExceeded, ErrFull, ...): sentinel errors are not nil
@@ -583,6 +824,60 @@ func enumPathsOpt(f *ssa.Function, limit int, cutLoops bool) ([]upath, bool) {
 										known, knownVal = true, b.Op == token.NEQ
 									}
 								}
+							}
+						}
+					}
+				}
+				if b, isB := cond.(*ssa.BinOp); isB && !known {
+					// both sides are integers known on this path (the counter of an unrolled constant loop)
+					here := len(cur.Instrs) - 1
+					if x, okx := cur.evalInt(b.X, here, 0); okx {
+						if y, oky := cur.evalInt(b.Y, here, 0); oky {
+							switch b.Op {
+							case token.LSS:
+								known, knownVal = true, x < y
+							case token.LEQ:
+								known, knownVal = true, x <= y
+							case token.GTR:
+								known, knownVal = true, x > y
+							case token.GEQ:
+								known, knownVal = true, x >= y
+							case token.EQL:
+								known, knownVal = true, x == y
+							case token.NEQ:
+								known, knownVal = true, x != y
+							}
+						}
+					}
+				}
+				if !known {
+					// the same value of the root function was already tested on this path (each block is visited
+					// once, so it is the same dynamic value): the outcome repeats
+					here := len(cur.Instrs) - 1
+					if cv, ceq, isCmp := nilCmpOf(cond); isCmp {
+						rv := cur.valueAt(cv, here)
+						if in, isI := rv.(ssa.Instruction); isI && occursOnce(cur.Instrs, in) {
+							for _, pc := range cur.Conds {
+								pv, peq, isP := nilCmpOf(pc.Cond)
+								if !isP {
+									continue
+								}
+								at := here
+								if pc.If != nil {
+									if k := cur.indexOf(pc.If); k >= 0 {
+										at = k
+									}
+								}
+								if cur.valueAt(pv, at) == rv {
+									isNil := pc.Val == peq
+									known, knownVal = true, isNil == ceq
+								}
+							}
+						}
+					} else if in, isI := cond.(ssa.Instruction); isI && in.Parent() == f {
+						for _, pc := range cur.Conds {
+							if pc.Cond == cond {
+								known, knownVal = true, pc.Val
 							}
 						}
 					}
@@ -1085,4 +1380,113 @@ func pathLoadSource(p *upath, v ssa.Value) ssa.Value {
 		}
 	}
 	return nil
+}
+
+// occursOnce: the instruction is executed exactly once on the path (a helper inlined twice executes its
+// instructions twice: two dynamic values for one SSA value).
+func occursOnce(ins []ssa.Instruction, in ssa.Instruction) bool {
+	n := 0
+	for _, x := range ins {
+		if x == in {
+			n++
+		}
+	}
+	return n == 1
+}
+
+// evalInt evaluates an integer value along the path: constants, phis by the edge taken at their occurrence at or
+// before index at (so the counter of an unrolled loop has its value of that iteration), sums and differences.
+func (p *upath) evalInt(v ssa.Value, at int, depth int) (int64, bool) {
+	if depth > 80 || v == nil {
+		return 0, false
+	}
+	if !isIntegerType(v.Type()) {
+		return 0, false
+	}
+	if k, ok := constInt(v); ok {
+		return k, true
+	}
+	if at >= len(p.Instrs) {
+		at = len(p.Instrs) - 1
+	}
+	occ := func(in ssa.Instruction) int {
+		for i := at; i >= 0; i-- {
+			if p.Instrs[i] == in {
+				return i
+			}
+		}
+		return -1
+	}
+	switch x := v.(type) {
+	case *ssa.Phi:
+		o := occ(x)
+		if o < 0 {
+			return 0, false
+		}
+		e := p.phiAt(x, o)
+		if e == nil {
+			return 0, false
+		}
+		return p.evalInt(e, o-1, depth+1)
+	case *ssa.BinOp:
+		o := occ(x)
+		if o < 0 {
+			return 0, false
+		}
+		a, ok1 := p.evalInt(x.X, o, depth+1)
+		if !ok1 {
+			return 0, false
+		}
+		b, ok2 := p.evalInt(x.Y, o, depth+1)
+		if !ok2 {
+			return 0, false
+		}
+		switch x.Op {
+		case token.ADD:
+			return a + b, true
+		case token.SUB:
+			return a - b, true
+		case token.MUL:
+			return a * b, true
+		}
+	case *ssa.Convert:
+		return p.evalInt(x.X, at, depth+1)
+	case *ssa.Parameter:
+		if r := p.valueAt(x, at); r != ssa.Value(x) {
+			return p.evalInt(r, at, depth+1)
+		}
+	}
+	return 0, false
+}
+
+// constLoopHeader: b (already on the path) ends in a branch on a comparison that evaluates to a constant if the
+// path re-enters b now.
+func constLoopHeader(cur *upath, b *ssa.BasicBlock) bool {
+	iff, ok := b.Instrs[len(b.Instrs)-1].(*ssa.If)
+	if !ok {
+		return false
+	}
+	cond := iff.Cond
+	for d := 0; d < 4; d++ {
+		if u, isU := cond.(*ssa.UnOp); isU && u.Op == token.NOT {
+			cond = u.X
+			continue
+		}
+		break
+	}
+	bo, ok := cond.(*ssa.BinOp)
+	if !ok {
+		return false
+	}
+	switch bo.Op {
+	case token.LSS, token.LEQ, token.GTR, token.GEQ, token.EQL, token.NEQ:
+	default:
+		return false
+	}
+	n := len(cur.Instrs)
+	cur.Instrs = append(cur.Instrs, b.Instrs...)
+	_, ok1 := cur.evalInt(bo.X, len(cur.Instrs)-1, 0)
+	_, ok2 := cur.evalInt(bo.Y, len(cur.Instrs)-1, 0)
+	cur.Instrs = cur.Instrs[:n]
+	return ok1 && ok2
 }
